@@ -384,52 +384,186 @@ MULTI_WS = [
                                             'b/src/lib.rs': 'use a::A3;\nuse c::*;\n#[typeshare]\n#[serde(rename = "BeeOne")]\npub struct B1 { pub f: A3, pub g: C1 }\n#[typeshare]\npub struct B2 { pub b: B1, pub c: Vec<C1> }\n'},
      {'b': ['A3', 'BeeOne', 'C1', 'C1']}),
 ]
-TS_IMPORT = __import__('re').compile(r'^import \{([^}]*)\} from "\./([^"]+)";', __import__('re').M)
+# the witness of the OPEN finding C09-multi-glob-renamed (class Spec.C09MultiSpec.c9m_known, Props C09_multi_glob_renamed_refuted): a
+# glob import reaches a serde-renamed type the importing crate has no type of its own for - the import line lists A2Renamed, the
+# reference keeps the Rust name A2 (reconcile.rs resolve_renamed filters the import set by type_name == id; a glob's name is `*`)
+GLOB_RENAMED_WITNESS = 'glob-imported renamed type (witness of C09-multi-glob-renamed)'
+MULTI_WS.append((GLOB_RENAMED_WITNESS, {'a/src/lib.rs': '#[typeshare]\n#[serde(rename = "A2Renamed")]\npub struct A2 { pub x: u8 }\n',
+                                        'b/src/lib.rs': 'use a::*;\n#[typeshare]\npub struct B1 { pub f: A2 }\n'},
+                 {'b': ['A2Renamed']}))
+# former witness of C14-kotlin-import-prefix (fix 26 of /repo): under a Kotlin prefix the import named the UNPREFIXED class
+MULTI_WS.append(('plain import under a Kotlin prefix', {'a/src/lib.rs': '#[typeshare]\npub struct A1 { pub x: u8 }\n',
+                                                        'b/src/lib.rs': 'use a::A1;\n#[typeshare]\npub struct B1 { pub f: A1 }\n'},
+                 {'b': ['A1']}))
+_re = __import__('re')
+TS_IMPORT = _re.compile(r'^import \{([^}]*)\} from "\./([^"]+)";', _re.M)
+KT_IMPORT = _re.compile(r'^import p\.([^.\n]+)\.(\S+)$', _re.M)
+SRC_RENAME = _re.compile(r'#\[serde\(rename = "(\w+)"\)\]\s*pub (struct|enum|type) (\w+)')
+SRC_TYPE = _re.compile(r'#\[typeshare[^\]]*\]\s*(?:#\[[^\]]*\]\s*)*pub (?:struct|enum|type) (\w+)')
+SRC_GLOB = _re.compile(r'^use (\w+)::\*;', _re.M)
+# (language, extension, prefix, CLI arguments): TypeScript, and Kotlin under a prefix (the import line must carry it: fix 26 of /repo)
+MULTI_LANGS = [('typescript', 'ts', '', []), ('kotlin', 'kt', 'KP', ['--java-package', 'p', '--kotlin-prefix', 'KP'])]
+
+
+def ws_facts(files):
+    """what the judgement of a failure needs to know about a hand-written workspace, read off its source text: per crate the
+    serde renames (Rust name -> (generated name, kind)), the crates it glob-imports, the Rust names of its own types"""
+    ren, globs, own = {}, {}, {}
+    for rel, txt in files.items():
+        c = rel.split('/')[0].replace('-', '_')
+        ren.setdefault(c, {}).update({n: (r, k) for r, k, n in SRC_RENAME.findall(txt)})
+        globs.setdefault(c, set()).update(SRC_GLOB.findall(txt))
+        own.setdefault(c, set()).update(SRC_TYPE.findall(txt))
+    return ren, globs, own
+
+
+def ws_class_request(root, files, asts):
+    """(c09_ws_class ..): the extracted Spec.C09MultiSpec.c9m_known_ws on the workspace (ocaml/drv_c09multi.ml); None if a file has no AST"""
+    import pathlib
+    entries = []
+    for rel in sorted(files):
+        a = asts[files[rel]]
+        if 'ok' not in a:
+            return None
+        entries.append((list(pathlib.Path(root, rel).parts), a['ok'], a['tstrs']))
+    return f'(c09_ws_class typescript {Lst(entries, lambda e: f"({Lst(e[0], S)} {e[1]} {e[2]})")})'
+
+
+def resolve_files(lang, ext, pfx, outs, expect):
+    """closed-world name resolution over the files of one run: failures as dicts (kind import | ref | spell, file, name, text)"""
+    import re
+    defs = {m: set(observe_text(lang, t)[0]) for m, t in outs.items()}
+    fails, imported_by = [], {}
+    for m, t in outs.items():
+        imported = {}
+        if lang == 'typescript':
+            pairs = [(x.strip(), src) for names, src in TS_IMPORT.findall(t) for x in names.split(',') if x.strip()]
+            generics = set(re.findall(r'<([A-Z]\w*)>', ' '.join(re.findall(r'export (?:interface|type) \w+(<[^>]*>)', t))))
+        else:
+            pairs = [(n, src) for src, n in KT_IMPORT.findall(t)]
+            generics = set(g.strip() for gs in re.findall(r'^(?:data class|sealed class|typealias|value class|enum class) \w+<([^>]*)>', t, re.M) for g in gs.split(','))
+        for n, src in pairs:
+            imported[n] = src
+            if n not in defs.get(src, set()):
+                fails.append({'kind': 'import', 'file': m, 'name': n, 'from': src,
+                              'text': f'{m}.{ext} imports {n} from {src}, whose file does not define it'})
+        imported_by[m] = imported
+        for owner, pos, n in observe_text(lang, t)[1]:
+            if n not in defs[m] and n not in imported and n not in generics:
+                fails.append({'kind': 'ref', 'file': m, 'name': n, 'text': f'{m}.{ext}: {owner} ({pos}) refers to {n}, which is neither defined in the file nor imported'})
+    if lang == 'typescript':
+        for m, want in expect.items():
+            got = sorted(n for _, _, n in observe_text(lang, outs.get(m, ''))[1] if len(n) > 1)      # generic parameters are single letters here
+            if got != want:
+                fails.append({'kind': 'spell', 'file': m, 'got': got, 'want': want,
+                              'text': f'{m}.{ext} spells its references {got}; the definitions they denote are emitted as {want}'})
+    return fails, defs, imported_by
+
+
+def classify_multi_failure(f, pfx, facts, defs, imported_by, ws_class):
+    """the recorded class that explains ONE failure of a folder-output run, or None.
+    C09-multi-glob-renamed (only when the extracted class of the workspace says so): the unresolved / mis-spelled name is the Rust
+    name of a type that a crate glob-imported by this file's crate serde-renames, the crate has no type of its own under that name,
+    and the generated name IS imported from that crate - exactly the failure of the witness.
+    C09-kotlin-alias: Kotlin declares a plain typealias under prefix + Rust name; an import of a serde-renamed alias names
+    prefix + generated name."""
+    ren, globs, own = facts
+    b = f['file']
+
+    def glob_renamed(n):
+        n0 = n[len(pfx):] if pfx and n.startswith(pfx) else n
+        if n0 in own.get(b, set()):
+            return None
+        for d in sorted(globs.get(b, set())):
+            r = ren.get(d, {}).get(n0)
+            if r and imported_by.get(b, {}).get(pfx + r[0]) == d:
+                return pfx + r[0]
+        return None
+    if f['kind'] == 'import':
+        for n0, (r, kind) in ren.get(f['from'], {}).items():
+            if kind == 'type' and f['name'] == pfx + r and pfx + n0 in defs.get(f['from'], set()):
+                return 'C09-kotlin-alias'
+        return None
+    if ws_class != 'C09-multi-glob-renamed':
+        return None
+    if f['kind'] == 'ref':
+        return 'C09-multi-glob-renamed' if glob_renamed(f['name']) else None
+    if f['kind'] == 'spell':
+        fixed = sorted(glob_renamed(n) or n for n in f['got'])
+        return 'C09-multi-glob-renamed' if fixed == f['want'] and fixed != f['got'] else None
+    return None
 
 
 def phase_multi(chk):
-    """TypeScript, --output-folder: in every generated file each referenced user type is defined in that file or imported into
-    it, and every imported name is defined in the file it is imported from (closed-world name resolution: C09's statement for a
-    run that writes several files).  Workspaces are hand-written and outside the recorded C14 classes (named or glob-covered
-    references - to serde-renamed types of other crates too, since the /repo fix of C14-renamed-import -, unique generated names)."""
-    import re
+    """--output-folder, TypeScript and Kotlin under the prefix KP: in every generated file each referenced user type is defined in
+    that file or imported into it, and every imported name is defined in the file it is imported from (closed-world name resolution:
+    C09's statement for a run that writes several files; Kotlin names carry the prefix everywhere, import lines included - fix 26 of
+    /repo).  Workspaces are hand-written and outside the recorded C14 classes (named or glob-covered references - to serde-renamed
+    types of other crates too, since the /repo fix of C14-renamed-import -, unique generated names).  Every workspace is also judged
+    by the EXTRACTED class predicate Spec.C09MultiSpec.c9m_known_ws (driver command c09_ws_class): a failure is a recorded finding
+    only if the workspace is IN the class and the failure is exactly the class's (classify_multi_failure); any other failure, and
+    any failure of a workspace outside the class, is a violation."""
+    srcs = sorted({t for _, files, _ in MULTI_WS for t in files.values()})
+    asts = dict(zip(srcs, vf.impl([{'cmd': 'ast', 'src': x} for x in srcs])))
+    roots, reqs = [], []
     for name, files, expect in MULTI_WS:
         d = vf.tmpdir('verif-c09-')
         for rel, txt in files.items():
             q = d / 'ws' / rel
             q.parent.mkdir(parents=True, exist_ok=True)
             q.write_text(txt)
-        (d / 'out').mkdir()
-        p = subprocess.run(['timeout', '30', str(vf.TYPESHARE), '--lang', 'typescript', '--output-folder', str(d / 'out'), str(d / 'ws')], capture_output=True, text=True)
-        chk.evaluations += 1
-        chk.count('multi_file_workspaces')
-        payload = {'phase': 'multi', 'workspace': name, 'files': files}
-        if p.returncode != 0:
-            chk.violation(f'multi-{name}', dict(payload, rc=p.returncode, stderr=p.stderr[-400:]), 'the real binary fails on a plain multi-crate workspace')
+        roots.append(d)
+        reqs.append(ws_class_request(d / 'ws', files, asts))
+    answers = iter(vf.model([r for r in reqs if r is not None]))
+    classes = []
+    for r in reqs:
+        if r is None:
+            classes.append(None)
             continue
-        outs = {f.stem: f.read_text() for f in sorted((d / 'out').glob('*.ts'))}
-        defs = {m: set(observe_text('typescript', t)[0]) for m, t in outs.items()}
-        bad = []
-        for m, t in outs.items():
-            imported = {}
-            for names, src in TS_IMPORT.findall(t):
-                for n in [x.strip() for x in names.split(',') if x.strip()]:
-                    imported[n] = src
-                    if n not in defs.get(src, set()):
-                        bad.append(f'{m}.ts imports {n} from ./{src}, which does not define it')
-            generics = set(re.findall(r'<([A-Z]\w*)>', ' '.join(re.findall(r'export (?:interface|type) \w+(<[^>]*>)', t))))
-            for owner, pos, n in observe_text('typescript', t)[1]:
-                if n not in defs[m] and n not in imported and n not in generics:
-                    bad.append(f'{m}.ts: {owner} ({pos}) refers to {n}, which is neither defined in the file nor imported')
-        payload['outputs'] = outs
-        for m, want in expect.items():
-            got = sorted(n for _, _, n in observe_text('typescript', outs.get(m, ''))[1] if len(n) > 1)      # generic parameters are single letters here
-            if got != want:
-                bad.append(f'{m}.ts spells its references {got}; the definitions they denote are emitted as {want}')
-        if bad:
-            chk.violation(f'multi-{name}', dict(payload, unresolved=bad), f'typescript, folder output, workspace "{name}": ' + '; '.join(bad[:3]))
-        else:
-            chk.nontrivial.add(('multi', name))
+        a = {k[0]: k[1] for k in next(answers)}
+        classes.append({'status': a['status'] if isinstance(a['status'], str) else a['status'][0],
+                        'class': None if a['class'] == 'none' else a['class'][1], 'ids_wf': a['ids_wf'] == 'true'})
+    reproduced = set()
+    for (name, files, expect), d, gc in zip(MULTI_WS, roots, classes):
+        ws_class = gc['class'] if gc and gc['status'] == 'ok' else None
+        chk.count('multi_ws_class_' + str(ws_class))
+        facts = ws_facts(files)
+        if gc is None or gc['status'] != 'ok' or not gc['ids_wf']:
+            chk.violation(f'multi-{name}', {'phase': 'multi', 'workspace': name, 'files': files, 'class_answer': gc},
+                          'the model cannot parse a hand-written workspace (or it is outside c9m_ids_wf): no class can be evaluated', no_input=True)
+        for lang, ext, pfx, extra in MULTI_LANGS:
+            out = d / ('out_' + ext)
+            out.mkdir()
+            p = subprocess.run(['timeout', '30', str(vf.TYPESHARE), '--lang', lang, '--output-folder', str(out)] + extra + [str(d / 'ws')], capture_output=True, text=True)
+            chk.evaluations += 1
+            chk.count('multi_file_workspaces')
+            payload = {'phase': 'multi', 'workspace': name, 'files': files, 'lang': lang, 'prefix': pfx, 'extracted_class': ws_class}
+            if p.returncode != 0:
+                chk.violation(f'multi-{name}-{lang}', dict(payload, rc=p.returncode, stderr=p.stderr[-400:]), 'the real binary fails on a plain multi-crate workspace')
+                continue
+            outs = {f.stem: f.read_text() for f in sorted(out.glob('*.' + ext))}
+            payload['outputs'] = outs
+            fails, defs, imported_by = resolve_files(lang, ext, pfx, outs, expect)
+            for f in fails:
+                f['class'] = classify_multi_failure(f, pfx, facts, defs, imported_by, ws_class)
+            unexplained = [f['text'] for f in fails if f['class'] is None]
+            if unexplained:
+                chk.violation(f'multi-{name}-{lang}', dict(payload, unresolved=[f['text'] for f in fails]),
+                              f'{lang}{" with prefix " + pfx if pfx else ""}, folder output, workspace "{name}"'
+                              + (f' (in class {ws_class}, but this is not that failure)' if ws_class else '') + ': ' + '; '.join(unexplained[:3]))
+                continue
+            for k in sorted({f['class'] for f in fails}):
+                reproduced.add(k)
+                if not chk.known(k, dict(payload, failures=[f['text'] for f in fails if f['class'] == k])):
+                    chk.violation(f'multi-{name}-{lang}', dict(payload, unresolved=[f['text'] for f in fails]), f'{k} is not a recorded open finding: ' + '; '.join(f['text'] for f in fails if f['class'] == k)[:400])
+            if not fails:
+                chk.nontrivial.add(('multi', name, lang))
+                if ws_class == 'C09-multi-glob-renamed' and name == GLOB_RENAMED_WITNESS:
+                    chk.notes.append(f'the witness of C09-multi-glob-renamed resolves every reference in {lang}: the finding did not reproduce')
+                    chk.known_nohit.add('C09-multi-glob-renamed')
+    if not any(c and c['class'] == 'C09-multi-glob-renamed' for c, (n, _, _) in zip(classes, MULTI_WS) if n == GLOB_RENAMED_WITNESS):
+        chk.violation('multi-witness-class', {'phase': 'multi', 'workspace': GLOB_RENAMED_WITNESS, 'class_answer': [c for c, (n, _, _) in zip(classes, MULTI_WS) if n == GLOB_RENAMED_WITNESS]},
+                      'the extracted c9m_known_ws does not put the witness of C09-multi-glob-renamed into its class', no_input=True)
 
 
 def run(chk):
@@ -444,7 +578,7 @@ def run(chk):
     chk.assumptions = ['syn is not modelled: the model receives the AST produced by harness/libdrive/src/ast.rs from the same text',
                        'what a name in a type position of the target language MEANS is fixed by Spec/C09Spec.v (c09_observe, builtin tables) and '
                        'lib/extract.py; no target-language compiler is installed',
-                       'single-file mode (p_imports = []) for the generated programs; folder output: nine hand-written workspaces through the real binary (TypeScript), every reference resolved in its file; import completeness in general is C14\'s subject',
+                       'single-file mode (p_imports = []) for the generated programs; folder output: eleven hand-written workspaces through the real binary (TypeScript; Kotlin under the prefix KP), every reference resolved in its file, failures judged by the extracted class Spec.C09MultiSpec.c9m_known_ws; import completeness in general is C14\'s subject',
                        'C09_Go covers every alphanumeric uppercase_acronyms list on ASCII programs (all generated programs and lists are); '
                        'non-alphanumeric acronyms and non-ASCII names are outside the theorem and are not generated']
     chk.prepare(need_cli=True)
